@@ -134,6 +134,50 @@ func runC10(c *core.Case) *core.Result {
 		return nil
 	}
 	reexports := 0
+	// A twin of R that has NEVER exported: same identity, fed with R's calls and deliveries from
+	// the start. Whatever an instance keeps between two exports (a cached encoding, a field that
+	// only some paths refresh) the twin does not have, so its export is the state itself; R's
+	// export must be the same at any moment. A twin is built afresh for every comparison.
+	canTwin := sh.boundary == 0 && sh.clock == 0 && (sh.idle == 0 || sh.idleOn != 0)
+	var script []func(x *crdt.Rep)
+	record := func(f func(x *crdt.Rep)) {
+		if canTwin {
+			script = append(script, f)
+		}
+	}
+	fine := canTwin && (c.Index/4)%3 == 1 // every type (the type is the index modulo 4)
+	maxTwins := 12
+	if fine {
+		maxTwins = 200
+	}
+	twins := 0
+	twinCompare := func() *core.Result {
+		if !canTwin || twins >= maxTwins {
+			return nil
+		}
+		twins++
+		W := crdt.NewRepCUID(0, sh.typ, R.W.GetCUID())
+		if pm := safely(func() {
+			for _, f := range script {
+				f(W)
+			}
+		}); pm != "" {
+			return c.Violation(sh.typ+":panic:twin", "replaying R's calls on a fresh twin panicked: %s", pm)
+		}
+		mR, sR, e1 := R.W.GetMetaAndSnapshot()
+		mW, sW, e2 := W.W.GetMetaAndSnapshot()
+		if e1 != nil || e2 != nil {
+			return c.Violation(sh.typ+":export-error", "export failed: %v / %v", e1, e2)
+		}
+		if a, b := canonSnapshot(sh.typ, sR), canonSnapshot(sh.typ, sW); a != b {
+			return c.Violation(sh.typ+":export-lags-behind-state", "R exports %s; a twin with R's identity that received the same calls and deliveries and has never exported before exports %s", clip(a, 700), clip(b, 700))
+		}
+		if a, b := metaWithoutDUID(mR), metaWithoutDUID(mW); a != b { // the datatype id is drawn per instance
+			return c.Violation(sh.typ+":export-meta-lags", "R exports meta %s, its never-exported twin %s", a, b)
+		}
+		c.Count("never_exported_twin_comparisons", 1)
+		return nil
+	}
 	for s := 0; s < sh.steps; s++ {
 		again := T != nil && s > snapAt && reexports < 4 && r.Intn(9) == 0
 		if s == snapAt || again {
@@ -195,12 +239,16 @@ func runC10(c *core.Case) *core.Result {
 		if T != nil && r.Intn(3) == 0 {
 			rep = R // keep the continuation busy on the pair under test
 		}
-		switch k := r.Intn(20); {
+		k := r.Intn(20)
+		switch {
 		case k < 10:
 			op := g.Op(rep)
 			ret, err, sig, msg := h.Local(rep, op)
 			if sig != "" {
 				return c.Violation(sh.typ+":"+sig, "%s", msg)
+			}
+			if rep == R {
+				record(func(x *crdt.Rep) { crdt.Apply(x.DT, op) })
 			}
 			if rep == R && T != nil {
 				contLocal++
@@ -214,8 +262,37 @@ func runC10(c *core.Case) *core.Result {
 			}
 		case k < 16:
 			upto := rep.Recvd + r.Intn(len(h.Log.Entries)-rep.Recvd+2)
+			if rep == R && fine {
+				// fine-grained mode: R receives one log entry at a time and is compared with a
+				// never-exported twin after each (an export that lags behind the state after ONE
+				// particular kind of remote operation is caught in the act)
+				if upto > len(h.Log.Entries) {
+					upto = len(h.Log.Entries)
+				}
+				for R.Recvd < upto {
+					if sig, msg := h.Sync(R, R.Recvd+1); sig != "" {
+						return c.Violation(sh.typ+":"+sig, "%s", msg)
+					}
+					up := R.Recvd
+					record(func(x *crdt.Rep) { h.Log.Deliver(x, up) })
+					if T != nil {
+						n, err := h.Log.Deliver(T, R.Recvd)
+						if err != nil {
+							return c.Violation(sh.typ+":restored-remote-apply-error", "the restored instance refused remote operations the original accepted: %v", err)
+						}
+						contRemote += n
+					}
+					if res := twinCompare(); res != nil {
+						return res
+					}
+				}
+			}
 			if sig, msg := h.Sync(rep, upto); sig != "" {
 				return c.Violation(sh.typ+":"+sig, "%s", msg)
+			}
+			if rep == R {
+				up := R.Recvd
+				record(func(x *crdt.Rep) { h.Log.Deliver(x, up) })
 			}
 			if rep == R && T != nil {
 				n, err := h.Log.Deliver(T, R.Recvd)
@@ -234,6 +311,9 @@ func runC10(c *core.Case) *core.Result {
 			if pm := safely(func() { runTx(rep, body, errBoom, false) }); pm != "" {
 				return c.Violation(sh.typ+":panic:failing-tx", "failing transaction panicked: %s", pm)
 			}
+			if rep == R {
+				record(func(x *crdt.Rep) { runTx(x, body, errBoom, false) })
+			}
 			if rep == R && T != nil {
 				if pm := safely(func() { runTx(T, body, errBoom, false) }); pm != "" {
 					return c.Violation(sh.typ+":panic:failing-tx-restored", "failing transaction panicked on the restored instance: %s", pm)
@@ -249,11 +329,19 @@ func runC10(c *core.Case) *core.Result {
 			if pm := safely(func() { runTx(rep, body, nil, false) }); pm != "" {
 				return c.Violation(sh.typ+":panic:committed-tx", "committed transaction panicked: %s", pm)
 			}
+			if rep == R {
+				record(func(x *crdt.Rep) { runTx(x, body, nil, false) })
+			}
 			if rep == R && T != nil {
 				contLocal++
 				if pm := safely(func() { runTx(T, body, nil, false) }); pm != "" {
 					return c.Violation(sh.typ+":panic:committed-tx-restored", "committed transaction panicked on the restored instance: %s", pm)
 				}
+			}
+		}
+		if rep == R && (r.Intn(6) == 0 || (k >= 10 && k < 16 && r.Intn(2) == 0)) { // more often right after deliveries
+			if res := twinCompare(); res != nil {
+				return res
 			}
 		}
 		if rep == R {
@@ -297,4 +385,15 @@ func runC10(c *core.Case) *core.Result {
 		c.NonTrivial()
 	}
 	return c.Held()
+}
+
+func metaWithoutDUID(meta []byte) string {
+	var m map[string]interface{}
+	dec := json.NewDecoder(bytes.NewReader(meta))
+	dec.UseNumber()
+	if dec.Decode(&m) != nil {
+		return string(meta)
+	}
+	delete(m, "DUID")
+	return crdt.JS(m)
 }
